@@ -96,7 +96,8 @@ theorem gRepeat_sp_flatten (n : Int) : (gRepeat [cxB.sp] n).flatten = gRepeat [c
 
 theorem rel_alignLeft {x : List Int} {y : List (List Int)} (h : Rel x y) (w : Int) :
     alignLeft cxA x w = (alignLeft cxB y w).flatten := by
-  unfold alignLeft
+  simp only [alignLeft_eq_core]
+  unfold alignLeftCore
   dsimp only
   rw [rel_countLeadingWs h, rel_gLen h]
   obtain ⟨eA, eB, hA, hB, he⟩ : ∃ eA eB,
@@ -112,7 +113,8 @@ theorem rel_alignLeft {x : List Int} {y : List (List Int)} (h : Rel x y) (w : In
 
 theorem rel_alignRight {x : List Int} {y : List (List Int)} (h : Rel x y) (w : Int) :
     alignRight cxA x w = (alignRight cxB y w).flatten := by
-  unfold alignRight
+  simp only [alignRight_eq_core]
+  unfold alignRightCore
   dsimp only
   rw [rel_countTrailingWs h]
   obtain ⟨eA, eB, hA, hB, he⟩ : ∃ eA eB,
@@ -127,7 +129,8 @@ theorem rel_alignRight {x : List Int} {y : List (List Int)} (h : Rel x y) (w : I
 
 theorem rel_alignCenter {x : List Int} {y : List (List Int)} (h : Rel x y) (w : Int) :
     alignCenter cxA x w = (alignCenter cxB y w).flatten := by
-  unfold alignCenter
+  simp only [alignCenter_eq_core]
+  unfold alignCenterCore
   dsimp only
   rw [rel_countTrailingWs h, rel_countLeadingWs h, rel_gLen h]
   obtain ⟨eA, eB, hA, hB, he⟩ : ∃ eA eB,
